@@ -418,6 +418,14 @@ func parseString(p *peeker) (node, hcl.Diagnostics) {
 			errEndPos.Byte++
 			errEndPos.Column++
 
+			if errEndPos.Byte > tok.Range.End.Byte {
+				// The error is at the very end of the token (an
+				// unterminated string, for example), so there is no
+				// following character to point at.
+				errPos = tok.Range.End
+				errEndPos = tok.Range.End
+			}
+
 			errRange = hcl.Range{
 				Filename: tok.Range.Filename,
 				Start:    errPos,
